@@ -132,6 +132,18 @@ def replay_case(case, report):
             if abs(val - xv) > tol * max(1.0, abs(xv)):
                 report('value', key, '%s.%s(%g) on %s = %r; spec expects %r'
                        % (label, GETTERS[ev['p']], T, desc, val, xv))
+                continue
+            # the same temperature written as an integer is the same temperature
+            if T == int(T):
+                for Ti in (int(T), np.int64(int(T))):
+                    k3, v3, w3 = call(getattr(obj, GETTERS[ev['p']]), Ti)
+                    o3, val3 = classify(k3, v3, w3)
+                    n += 1
+                    if o3['k'] != o['k'] or (val3 is not None and abs(val3 - xv) > tol * max(1.0, abs(xv))):
+                        report('value' if o3['k'] == o['k'] else 'class', key + ':int',
+                               '%s.%s(%r as %s) on %s -> %s %r; with the float %r it is %r (spec %r)'
+                               % (label, GETTERS[ev['p']], int(T), type(Ti).__name__, desc, o3, val3, T, val, xv))
+                        break
     return n
 
 
@@ -167,6 +179,13 @@ def rank_trace(obj_factory, ts, cps, tref, rng, h, s, probes, label):
         for T in probes:
             k2, v, warns = call(getattr(obj, GETTERS[p]), T)
             o, val = classify(k2, v, warns)
+            if T == int(T):
+                # the same temperature given as an integer: if that answers differently, it is that
+                # answer which is validated (and rejected) below
+                k3, v3, w3 = call(getattr(obj, GETTERS[p]), int(T))
+                o3, val3 = classify(k3, v3, w3)
+                if o3 != o or (val is not None and val3 is not None and abs(val3 - val) > 1e-12 * max(1.0, abs(val))):
+                    o, val = o3, val3
             evs.append({'op': 'eval', 'prop': p, 't': rank[T], 'obs': o})
             side.append((p, T, val))
     return evs, side, (obj, temps)
